@@ -71,6 +71,17 @@ def render(forest, indent: int = 0, counter: list | None = None) -> list[str]:
     return out
 
 
+def no_empty_openers(forest) -> bool:
+    """True if every body opener has at least one child.  (An opener with an empty body followed by a line at the same
+    indentation is silently re-nested by the parser - C17 finding - so such texts do not mean what they look like.)"""
+    for kind, children in forest:
+        if kind in OPENERS and not children:
+            return False
+        if not no_empty_openers(children):
+            return False
+    return True
+
+
 def to_lines(forest) -> list[tuple[str, str]]:
     return [(f"L{i}", c) for i, c in enumerate(render(forest))]
 
